@@ -69,8 +69,50 @@ def match_bound_across(case, observed, finding):
             and observed['pre']['pmin'] <= observed['pre']['pmax'])
 
 
+def match_copy_outside_default_bounds(case, observed, finding):
+    """D09f: the first deviation is directly after `other = this.copy()`, it is the copied piece
+    length lying outside the class-default bounds the copy starts with, and the original's piece
+    length was within the original's own bounds"""
+    codes = set(observed.get('codes', []))
+    pre = observed.get('pre') or {}
+    pl = pre.get('pl')
+    return (observed['op']['k'] == 'copy' and bool(codes) and codes <= {'pl>max', 'pl<min'} and pl is not None
+            and pre['pmin'] <= pl <= pre['pmax'] and not (W.DEFAULT_MIN <= pl <= W.DEFAULT_MAX))
+
+
+DOTDOT_SPELLINGS = ('rel', 'reldot', 'dotdot')
+
+
+def dotdot_spelled(op):
+    sp = op.get('sp')
+    return any(x in DOTDOT_SPELLINGS for x in (sp if isinstance(sp, list) else [sp]))
+
+
+def mixed_spelling(op, before=False):
+    """region of D09g: a `filepaths` operation that combines paths in DIFFERENT spellings of which
+    one contains '..'.  `filepaths.append` always combines (the list holds the paths as the getter
+    spells them, i.e. as an earlier operation left `path`): it is in the region if its own
+    spelling contains '..' or (`before`) an earlier `path`/`filepaths` operation of the history on
+    that object did.  An assignment of several paths is outside the region only if every path is
+    absolute without '..' or all are relative to the cwd in the same way."""
+    if op['k'] == 'fpAppend':
+        return before or dotdot_spelled(op)
+    if op['k'] == 'setFilepaths' and len(op['ps']) > 1:
+        sps = [x or 'abs' for x in (op.get('sp') or [])]
+        return dotdot_spelled(op) and not (len(set(sps)) == 1 and sps[0] in ('rel', 'reldot'))
+    return False
+
+
+def match_mixed_spelling(case, observed, finding):
+    """D09g: the first deviation is directly after such an operation and it is the same file being
+    listed twice (size != sum of the listed files) - nothing else"""
+    return mixed_spelling(observed['op'], observed.get('dotdot_before', False)) and set(observed.get('codes', [])) == {'size!=sum'}
+
+
 MATCHERS = {
     'bound_assigned_across_other_bound': match_bound_across,
+    'filepaths_in_mixed_spellings': match_mixed_spelling,
+    'copy_with_piece_size_outside_default_bounds': match_copy_outside_default_bounds,
 }
 
 # ---------------------------------------------------------------------------------------------
@@ -209,6 +251,149 @@ def g_filter_history(rng, maxlen):
     return ops
 
 
+def _spelled(rng, op, p=0.4):
+    """with probability p the path(s) of a `path` / `filepaths` operation are handed to torf in
+    another SPELLING (relative to the worker's cwd - which starts with '..' -, './rel', an 'x/..'
+    detour, a '.' segment, a doubled or trailing separator); the model gets the same abstract path:
+    the spelling must not matter"""
+    if rng.random() >= p:
+        return op
+    if op['k'] == 'setFilepaths':
+        op['sp'] = [rng.choice(W.SPELLINGS) for _ in op['ps']]
+    elif op.get('p') is not None:
+        op['sp'] = rng.choice(W.SPELLINGS)
+    return op
+
+
+def enumerated_spelling(ctx):
+    """every spelling of: one file (the single-file case of `_set_files`: `files[0] == basepath`), one
+    file inside a directory, two files, a directory - through `filepaths = [...]`, `filepaths.append`
+    on an empty and on a filled list, and `path = ...`; then hashing, so that a wrong mode shows"""
+    out = []
+    gen = {'k': 'generate'}
+    for sp in W.SPELLINGS:
+        for ps in ([R + ['S']], [R + ['F5', 'f']], [R + ['A', 'a'], R + ['A', 'b']], [R + ['B']], [R + ['A', 'sub', 'c']],
+                   [R + ['S'], R + ['B', 'x']]):
+            out.append([{'k': 'setFilepaths', 'ps': ps, 'sp': [sp] * len(ps)}, gen])
+            out.append([{'k': 'setFilepaths', 'ps': ps, 'sp': [sp] + ['abs'] * (len(ps) - 1)}, gen, {'k': 'setName', 'n': 'Foo'}])
+        for p1 in (R + ['S'], R + ['F5', 'f'], R + ['B'], R + ['A', 'sub']):
+            out.append([{'k': 'fpAppend', 'p': p1, 'sp': sp}, gen])
+            out.append([{'k': 'setPath', 'p': R + ['F5']}, {'k': 'fpAppend', 'p': p1, 'sp': sp}, gen])
+            out.append([{'k': 'setPath', 'p': p1, 'sp': sp}, gen, {'k': 'fpDel', 'i': 0}])
+            out.append([{'k': 'setFilepaths', 'ps': [p1], 'sp': [sp]}, {'k': 'globAppend', 'inc': False, 'g': ['suffix', 'x']}, gen])
+    return out
+
+
+# ---------------------------------------------------------------------------------------------
+# two objects: `cp = t.copy()`, then work on BOTH objects
+
+
+def _on(i, op):
+    return dict(op, on=i)
+
+
+COPY_FOLLOW = None
+
+
+def copy_follow():
+    """operations tried on either object after a copy (the whole alphabet + edits of each filter list)"""
+    fl = []
+    for kind, v, w in (('glob', ['suffix', '.tmp'], ['suffix', 'a']), ('rx', r'a$', r'\.tmp$')):
+        for inc in (False, True):
+            fl += [_fl(kind, 'Append', inc, v=v), _fl(kind, 'Set', inc, vs=[v, w]), _fl(kind, 'Extend', inc, True, vs=[v]),
+                   _fl(kind, 'IaddAttr', inc, vs=[w])]
+        fl += [_fl(kind, 'Remove', False, True, v=v), _fl(kind, 'Clear', False), _fl(kind, 'Reverse', False, True),
+               _fl(kind, 'SetIndex', False, True, v=w, i=0), _fl(kind, 'Pop', False, i=None)]
+    return ALPHABET + fl
+
+
+def enumerated_copy(ctx):
+    out = []
+    cp = {'k': 'copy', 'on': 0}
+    pres = [
+        [{'k': 'setPath', 'p': R + ['A']}, {'k': 'generate'}],
+        [{'k': 'setPath', 'p': R + ['A']}, {'k': 'globSet', 'inc': False, 'gs': [['suffix', '.tmp']]}, {'k': 'generate'}],
+        [{'k': 'setPath', 'p': R + ['S']}, {'k': 'setPieceSize', 'v': 2 * K}, {'k': 'generate'}],
+        [{'k': 'setPath', 'p': R + ['F5']}],
+        [],
+    ]
+    follow = copy_follow()
+    for pre in (pres if ctx.thorough else pres[:3]):
+        out.append(pre + [cp])
+        for a in follow:
+            for i in (0, 1):
+                out.append(pre + [cp, _on(i, a)])
+            # the copy gets content of its own, is hashed, then the ORIGINAL is edited (and vice versa)
+            out.append(pre + [cp, _on(1, {'k': 'setPath', 'p': R + ['A']}), _on(1, {'k': 'generate'}), _on(0, a)])
+            out.append(pre + [cp, _on(1, {'k': 'setPath', 'p': R + ['A']}), _on(1, {'k': 'generate'}), _on(1, a)])
+    for pre in pres[3:]:
+        for a in follow[:12]:
+            out.append(pre + [cp, _on(1, a), _on(0, a)])
+    # region of D09f: the copied piece length lies outside the class-default bounds
+    out.append(BIG_PREFIX + [cp])
+    out.append(BIG_PREFIX[:3] + [cp])
+    # copy of a copy, copy back
+    out.append(pres[0] + [cp, {'k': 'copy', 'on': 1}, _on(0, _fl('glob', 'Append', False, v=['suffix', 'a'])), _on(1, {'k': 'setPath', 'p': R + ['A']})])
+    return out
+
+
+def g_copy_history(rng, maxlen):
+    """content (hashed in most cases), `cp = t.copy()`, then random operations on both objects -
+    mostly filter edits (also through held list objects of either object), content, piece size and
+    bounds, hashing -, sometimes a second copy in either direction"""
+    cur = [new_cur(), new_cur()]
+    ops = [{'k': 'setPath', 'p': rng.choice([R + ['A'], R + ['A'], R + ['B'], R + ['S'], R + ['F5']])}]
+    if rng.random() < 0.4:
+        ops.append(g_flist_op(rng, cur[0], rng.choice(['glob', 'rx']), rng.random() < 0.3, False))
+    if rng.random() < 0.4:
+        ops.append({'k': 'setPieceSize', 'v': K * rng.choice([1, 2, 3, 4])})
+    if rng.random() < 0.75:
+        ops.append({'k': 'generate'})
+    ops.append({'k': 'copy', 'on': 0})
+    cur[1] = new_cur()
+    n = len(ops) + rng.randint(1, maxlen)
+    while len(ops) < n:
+        i = 1 if rng.random() < 0.6 else 0
+        r = rng.random()
+        if r < 0.45:
+            op = g_flist_op(rng, cur[i], rng.choice(['glob', 'rx']), rng.random() < 0.3, rng.random() < 0.5)
+        elif r < 0.6:
+            op = {'k': 'generate'}
+        elif r < 0.7:
+            op = _spelled(rng, {'k': 'setPath', 'p': rng.choice([R + ['A'], R + ['A'], R + ['S'], R + ['B'], None])}, 0.2)
+        elif r < 0.96:
+            op = g_op(rng, cur[i], False)
+        else:
+            ops.append({'k': 'copy', 'on': i})
+            cur[1 - i] = new_cur()
+            continue
+        ops.append(_on(i, op))
+    return ops
+
+
+def gen_cases2(ctx, scale=1.0):
+    cases = []
+    d = os.path.join(common.CORPUS_DIR, 'C09')
+    for fn in sorted(os.listdir(d)) if os.path.isdir(d) else []:
+        if fn.endswith('.json'):
+            j = json.load(open(os.path.join(d, fn)))
+            if _is2(j['ops']):
+                cases.append({'ops': j['ops'], 'src': 'corpus:' + fn})
+    for f in ctx.open_findings():
+        w = f.get('witness', {})
+        if 'ops' in w and _is2(w['ops']):
+            cases.append({'ops': w['ops'], 'src': 'witness:' + f['id'], 'witness': f['id']})
+    for ops in enumerated_copy(ctx):
+        cases.append({'ops': ops, 'src': 'enumerated-copy'})
+    for _ in range(int(ctx.n(900, 30000) * scale)):
+        cases.append({'ops': g_copy_history(ctx.rng, 10 if ctx.thorough else 6), 'src': 'random-copy'})
+    return cases
+
+
+def _is2(ops):
+    return any(o['k'] == 'copy' or o.get('on') for o in ops)
+
+
 def g_files(rng):
     c = rng.random()
     s = lambda: rng.choice(FAKE_SIZES)   # noqa
@@ -237,7 +422,7 @@ def g_op(rng, cur, wide=True):
                     'setMin', 'setMax', 'generate', 'generate', 'generate', 'setComment'])
     if c == 'setPath':
         p = rng.choice(PATHS if rng.random() < 0.97 else [R + ['big']])
-        return {'k': 'setPath', 'p': p}
+        return _spelled(rng, {'k': 'setPath', 'p': p})
     if c == 'setFiles':
         return {'k': 'setFiles', 'fs': g_files(rng)}
     if c == 'filesDel':
@@ -248,15 +433,15 @@ def g_op(rng, cur, wide=True):
     if c == 'filesClear':
         return {'k': 'filesClear'}
     if c == 'setFilepaths':
-        return {'k': 'setFilepaths', 'ps': rng.choice([
+        return _spelled(rng, {'k': 'setFilepaths', 'ps': rng.choice([
             [R + ['A', 'a'], R + ['A', 'b']], [R + ['A']], [R + ['B', 'x'], R + ['A', 'a']],
-            [R + ['A', 'sub']], [R + ['S']], [R + ['Z']], [], [R + ['A', 'sub', 'c']],
-            [R + ['A', 'a'], R + ['A', 'a']], [R + ['E']], [R + ['F5'], R + ['B']]])}
+            [R + ['A', 'sub']], [R + ['S']], [R + ['S']], [R + ['Z']], [], [R + ['A', 'sub', 'c']], [R + ['F5', 'f']],
+            [R + ['A', 'a'], R + ['A', 'a']], [R + ['E']], [R + ['F5'], R + ['B']]])})
     if c == 'fpDel':
         return {'k': 'fpDel', 'i': rng.randrange(6)}
     if c == 'fpAppend':
-        return {'k': 'fpAppend', 'p': rng.choice([R + ['B', 'x'], R + ['B'], R + ['A', 'sub', 'c'], R + ['S'],
-                                                  R + ['Z'], R + ['A', 'a'], R + ['A', '.hid']])}
+        return _spelled(rng, {'k': 'fpAppend', 'p': rng.choice([R + ['B', 'x'], R + ['B'], R + ['A', 'sub', 'c'], R + ['S'],
+                                                                 R + ['Z'], R + ['A', 'a'], R + ['A', '.hid']])})
     if c == 'fpClear':
         return {'k': 'fpClear'}
     if c == 'flist':
@@ -529,10 +714,11 @@ def corpus_cases(ctx):
         for fn in sorted(os.listdir(d)):
             if fn.endswith('.json'):
                 j = json.load(open(os.path.join(d, fn)))
-                out.append({'ops': j['ops'], 'src': 'corpus:' + fn})
+                if not _is2(j['ops']):            # two-object histories: gen_cases2
+                    out.append({'ops': j['ops'], 'src': 'corpus:' + fn})
     for f in ctx.open_findings():
         w = f.get('witness', {})
-        if 'ops' in w:
+        if 'ops' in w and not _is2(w['ops']):
             out.append({'ops': w['ops'], 'src': 'witness:' + f['id'], 'witness': f['id']})
     return out
 
@@ -545,6 +731,8 @@ def gen_cases(ctx, scale=1.0):
         cases.append({'ops': ops, 'src': 'enumerated-rx'})
     for ops in enumerated_reassign(ctx):
         cases.append({'ops': ops, 'src': 'enumerated-reassign'})
+    for ops in enumerated_spelling(ctx):
+        cases.append({'ops': ops, 'src': 'enumerated-spelling'})
     maxlen = 14 if ctx.thorough else 8
     for _ in range(int(ctx.n(2600, 110000) * scale)):
         cases.append({'ops': g_history(ctx.rng, maxlen), 'src': 'random'})
@@ -606,10 +794,21 @@ def evaluate(ctx, drv, cases):
                     'impl_last': impl['steps'][-1] if impl['steps'] else None}, limit=4)
         reproduced = False
         failed_batch = False
+        sp_out = False
+        dd_before = False
         for k, st in enumerate(impl['steps']):
             ms = msteps[k]
             op = ops[k]
             ctx.dist['op/' + op['k']] += 1
+            if op.get('sp'):
+                ctx.dist['spelled/' + op['k']] += 1
+            sp_out = sp_out or mixed_spelling(op, dd_before)
+            dd_now, dd_before = dd_before, dd_before or dotdot_spelled(op)
+            if sp_out and ms['hypC']:
+                # D09g region: the model (which knows no spellings) is not compared from here on;
+                # the implementation-side clauses still are
+                ms = dict(ms, hypC=False)
+                ctx.dist['outside-hyp:mixed-spelling(D09g)'] += 1
             if not ms['fok']:
                 ctx.machinery_error('model state violates FiltersOk although C09_filters_ok_history is proved',
                                     {'case': case, 'step': k})
@@ -621,7 +820,7 @@ def evaluate(ctx, drv, cases):
             if st['dev']:
                 pre = impl['steps'][k - 1]['obs'] if k else impl['init']
                 observed = {'step': k, 'op': op, 'codes': st['dev'], 'res': st['res'], 'pre': pre,
-                            'post': st['obs'], 'hyp': ms['hypC']}
+                            'post': st['obs'], 'hyp': ms['hypC'], 'dotdot_before': dd_now}
                 fid = ctx.violation('after operation %d (%s) the torrent violates C09: %s'
                                     % (k, op['k'], ', '.join(st['dev'])),
                                     case, {'no deviation; model state': ms['state'], 'model res': ms['res']},
@@ -653,6 +852,7 @@ def evaluate(ctx, drv, cases):
             if d:
                 ctx.corr_break('c09.run', {'ops': ops[:k + 1], 'src': c['src']}, {'step': k, 'diff': d, 'state': ms['state'], 'res': ms['res']},
                                {'step': k, 'state': st['obs'], 'res': st['res']})
+                _later_deviation(ctx, case, ops, impl['steps'], k)
                 break
             if st['obs']['ready']:
                 ctx.dist['ready-and-verified'] += 1
@@ -713,6 +913,106 @@ def _count_flist(ctx, f, op, st, pre, failed_batch):
         if pre[key] or f['vs']:
             ctx.dist['flist/attribute-iadd-nonempty' + hashed] += 1
     return failed_batch
+
+
+def _later_deviation(ctx, case, ops, steps, k):
+    """The implementation ran the whole history whatever the model says: a deviation from the
+    specification AFTER a correspondence break is still a violation with a concrete input."""
+    for m in range(k + 1, len(steps)):
+        st = steps[m]
+        if st['dev']:
+            obs = st['obs']
+            ctx.violation('after operation %d (%s) the torrent violates C09: %s (the model already disagreed at operation %d)'
+                          % (m, ops[m]['k'], ', '.join(st['dev']), k), case, 'no deviation',
+                          {'step': m, 'op': ops[m], 'codes': st['dev'], 'res': st['res'],
+                           'pre': None, 'post': obs, 'hyp': False}, finding_matchers={})
+            break
+
+
+def _run_chunk2(cases):
+    torf = common.import_torf()
+    root = W.world_root()
+    return [W.run_history2(torf, c['ops'], root) for c in cases]
+
+
+def evaluate2(ctx, drv, cases):
+    """two-object histories: I (both real objects, C09 clauses + independence), M (`apply2`), S (`Inv`
+    on both model states under `AllOk2`, `FiltersOk` on both without hypothesis)"""
+    env = W.env_json()
+    replies = drv.run([{'op': 'c09.run2', 'env': env, 'ops': [dict(W.to_driver(o), on=int(o.get('on', 0))) if o['k'] != 'copy' else o for o in c['ops']]}
+                       for c in cases])
+    results = common.pmap(_run_chunk2, common.split(cases, common.NPROC * 4))
+    flat = [r for chunk in results for r in chunk]
+    assert len(flat) == len(cases)
+    for c, rep, impl in zip(cases, replies, flat):
+        ops = c['ops']
+        case = {'ops': ops, 'src': c['src']}
+        msteps = rep['steps']
+        steps = impl['steps']
+        nontrivial = any(k and steps[k - 1]['obs'] and any(o['pieces'] is not None for o in steps[k - 1]['obs'])
+                         and ops[k]['k'] not in ('generate', 'setComment') for k in range(len(steps)))
+        ctx.case(key=json.dumps(ops, sort_keys=True), nontrivial=nontrivial, kind='history2/' + c['src'].split(':')[0])
+        reproduced = False
+        sp_out = False
+        dd_before = [False, False]
+        for k, st in enumerate(steps):
+            ms = msteps[k]
+            op = ops[k]
+            i = int(op.get('on', 0))
+            ctx.dist['op2/%s/on%d' % (op['k'], i)] += 1
+            sp_out = sp_out or mixed_spelling(op, dd_before[i])
+            dd_now, dd_before[i] = dd_before[i], dd_before[i] or dotdot_spelled(op)
+            m = [W.model_state(ms['state0']), W.model_state(ms['state1'])]
+            if not ms['fok']:
+                ctx.machinery_error('model state violates FiltersOk although C09_filters_ok2_history is proved', {'case': case, 'step': k})
+                break
+            if ms['hyp'] and not (ms['inv0'] and ms['inv1']):
+                ctx.machinery_error('model states violate Inv under AllOk2 although C09_inv2_history is proved', {'case': case, 'step': k})
+                break
+            if st['dev']:
+                t = (1 - i) if op['k'] == 'copy' else i
+                pre = (steps[k - 1]['obs'][i] if k else impl['init'])
+                observed = {'step': k, 'op': op, 'codes': st['dev'], 'res': st['res'], 'pre': pre,
+                            'post': st['obs'][t] if st['obs'] else None, 'other': st['obs'][1 - t] if st['obs'] else None,
+                            'hyp': ms['hyp'], 'dotdot_before': dd_now}
+                fid = ctx.violation('after operation %d (%s on object %d) the torrents violate C09: %s'
+                                    % (k, op['k'], i, ', '.join(st['dev'])), case,
+                                    {'no deviation; model states': m, 'model res': ms['res']}, observed,
+                                    finding_matchers=MATCHERS)
+                reproduced = reproduced or (fid is not None and fid == c.get('witness'))
+                break
+            if sp_out or not ms['hypM']:
+                ctx.dist['outside-hyp-but-in-spec'] += 1
+                continue
+            if not ms['hyp']:
+                ctx.dist['copy/detached-object-compared-with-the-model(Inv not claimed)'] += 1
+            d = {}
+            for o in (0, 1):
+                dd = _diff(m[o], st['obs'][o])
+                if dd:
+                    d['object%d' % o] = dd
+            if ms['res'] != st['res']:
+                d['outcome'] = {'model': ms['res'], 'impl': st['res']}
+            if d:
+                ctx.corr_break('c09.run2', {'ops': ops[:k + 1], 'src': c['src']}, {'step': k, 'diff': d, 'res': ms['res']},
+                               {'step': k, 'states': st['obs'], 'res': st['res']})
+                _later_deviation(ctx, case, ops, steps, k)
+                break
+            if op['k'] == 'copy':
+                ctx.dist['copy/' + ('of-hashed' if st['obs'][i]['pieces'] is not None else 'of-unhashed')] += 1
+            elif k and any(o['k'] == 'copy' for o in ops[:k]):
+                f = W.flist(op)
+                if f is not None and st['res'] == 'ok':
+                    pre = steps[k - 1]['obs']
+                    ctx.dist['copy/filter-edit-after-copy/on%d%s' % (i, '/hashed' if pre[i]['pieces'] is not None else '')] += 1
+                    if pre[1 - i]['pieces'] is not None:
+                        ctx.dist['copy/filter-edit-while-the-other-object-holds-hashes'] += 1
+            if any(o['ready'] for o in st['obs']):
+                ctx.dist['ready-and-verified'] += 1
+        if c.get('witness') and not reproduced and c['witness'] not in ctx.not_reproduced:
+            ctx.not_reproduced.append(c['witness'])
+    ctx.violations.sort(key=lambda v: len(v['case'].get('ops', ())) if isinstance(v['case'], dict) else 0)
+    ctx.corr_breaks.sort(key=lambda v: len(v['case'].get('ops', ())) if isinstance(v['case'], dict) else 0)
 
 
 def calc_cases(ctx):
@@ -780,6 +1080,7 @@ def run(ctx, drv):
     ctx.notes['trusted_base'] = ['harness/impl/attrs_world.py: projection of the real Torrent and the implementation-side evaluation of C09']
     evaluate_calc(ctx, drv, calc_cases(ctx))
     evaluate(ctx, drv, gen_cases(ctx))
+    evaluate2(ctx, drv, gen_cases2(ctx))
     ctx.exhaustive = False
 
 
@@ -795,7 +1096,8 @@ def search(ctx, drv):
                 seeds.append({'ops': ops + [{'k': 'generate'}, a], 'src': 'search'})
                 for p in PREFIXES[:2]:
                     seeds.append({'ops': p + ops[-1:] + [a], 'src': 'search'})
-    evaluate(ctx, drv, seeds)
+    evaluate2(ctx, drv, [c for c in seeds if _is2(c['ops'])])
+    evaluate(ctx, drv, [c for c in seeds if not _is2(c['ops']) and not any(o.get('on') for o in c['ops'])])
     if not ctx.violations:
         evaluate(ctx, drv, [c for c in gen_cases(ctx, scale=2.0) if c['src'] in ('random', 'random-filters')])
 
@@ -807,6 +1109,6 @@ def replay(ctx, drv, rp):
         evaluate_calc(ctx, drv, [(cc['size'], cc['min'], cc['max'])])
     else:
         ctx.findings = []      # a replay reports the raw verdict, known findings do not mask it
-        evaluate(ctx, drv, [{'ops': c['ops'], 'src': c.get('src', 'replay')}])
+        (evaluate2 if _is2(c['ops']) else evaluate)(ctx, drv, [{'ops': c['ops'], 'src': c.get('src', 'replay')}])
     return {'fails': bool(ctx.violations or ctx.corr_breaks), 'violations': ctx.violations,
             'correspondence_breaks': ctx.corr_breaks}
